@@ -39,7 +39,8 @@ def regenerate_all():
              ("json", lambda: gen_json.regenerate(None)), ("diag", lambda: gen_diag.regenerate(None)),
              ("scaling", lambda: gen_scaling.regenerate(None)),
              ("solve-main-calls", lambda: gen_mainccalls.regenerate(None)),
-             ("main-loop-skeleton", lambda: gen_skeleton.regenerate(None))]
+             ("main-loop-skeleton", lambda: gen_skeleton.regenerate(None)),
+             ("controller-skeletons", lambda: gen_skeleton.regenerate_ctrl(None))]
     for name, fn in steps:
         try:
             fn()
